@@ -4,7 +4,8 @@ sequence of writes/truncates); the leftover file must be rejected by every reade
 import os, sys, json, shutil, tempfile
 sys.path.insert(0, os.path.dirname(os.path.dirname(os.path.abspath(__file__))))
 from vlib.common import *
-from vlib import build, treegen, sqfsck, packcheck, envrun, scenarios
+from vlib import build, treegen, sqfsck, packcheck, envrun, scenarios, tarmk, tarcases
+from vlib.treegen import E, content_pattern
 
 SCR = None
 T = {}
@@ -16,7 +17,25 @@ def scenarios_for(tier):
     S.append(("gensquashfs", "small/gzip", small, dict(comp="gzip", bs=4096)))
     S.append(("gensquashfs", "rich/lz4/-e", rich, dict(comp="lz4", bs=4096, e=1)))
     S.append(("tar2sqfs", "rich/gzip", rich, dict(comp="gzip", bs=4096)))
+    # which tables the super block refers to decides what has to be on disk before it: fragment table x xattr table x export table
+    B = 4096
+    for frag in (0, 1):
+        for xa in (0, 1):
+            for ex in (0, 1):
+                spec = [E(b"d", "dir", 0o755), E(b"d/a", "file", content=content_pattern("a", B + (100 if frag else 0)), **({"xattrs": {b"user.k": b"v" * 20}} if xa else {}))]
+                lab = "tables/%s%s%s" % ("frag" if frag else "nofrag", "+xattr" if xa else "", "+export" if ex else "")
+                S.append(("gensquashfs", lab, spec, dict(comp=("gzip", "lz4", "zstd", "xz")[(frag * 4 + xa * 2 + ex) % 4], bs=B, e=ex)))
+                S.append(("tar2sqfs", lab, spec, dict(comp=("xz", "zstd", "lz4", "gzip")[(frag * 4 + xa * 2 + ex) % 4], bs=B, e=ex)))
+    # an output file that already exists and holds a larger valid image (-f): stale bytes behind the crash point must not complete an image
+    S.append(("gensquashfs", "overwrite-larger-image", small, dict(comp="gzip", bs=4096, preexisting=1)))
+    S.append(("tar2sqfs", "overwrite-larger-image", small, dict(comp="gzip", bs=4096, preexisting=1)))
     if tier == "thorough":
+        # every entry template of the C01 generator on its own, both tools
+        for tname, ents in treegen.templates(4096):
+            if treegen.representable(ents) or any(e["type"] == "sock" for e in ents):
+                continue
+            S.append(("gensquashfs", "template/" + tname, ents, dict(comp="gzip", bs=4096)))
+            S.append(("tar2sqfs", "template/" + tname, ents, dict(comp="zstd", bs=4096)))
         S.append(("gensquashfs", "rich/xz", rich, dict(comp="xz", bs=4096)))
         S.append(("gensquashfs", "frag/zstd/-j4", frag, dict(comp="zstd", bs=4096, j=4)))
         S.append(("gensquashfs", "frag/gzip/-T/-e", frag, dict(comp="gzip", bs=4096, T=1, e=1)))
@@ -42,6 +61,9 @@ def prepare(tool, spec, cfg, wd):
             argv += ["-A", os.path.join(wd, "xattr.txt")]
         return argv, None
     else:
+        if any(e.get("xattrs") for e in spec):
+            ents = [tarcases.E(e["path"], e["type"], **{k: v for k, v in e.items() if k not in ("path", "type")}) for e in spec]
+            return [T["tar2sqfs"]] + packcheck.cfg_args(cfg), tarmk.archive(ents, "pax")
         return [T["tar2sqfs"]] + packcheck.cfg_args(cfg), scenarios.make_tar(spec)
 
 
@@ -63,10 +85,12 @@ def readers_verdict(img, full_tree):
 
 
 def run_point(a):
-    idx, k, argv, stdin, wd = a
+    idx, k, argv, stdin, wd, pre = a
     d = tempfile.mkdtemp(prefix="k", dir=wd)
     img = os.path.join(d, "out.sqfs")
     try:
+        if pre:
+            shutil.copyfile(pre, img)
         r, log = envrun.run_env(argv + [img], plan="kill:out#%d" % k, out_path=img, stdin=stdin, want_log=False, timeout=60)
         exists = os.path.exists(img)
         size = os.path.getsize(img) if exists else -1
@@ -101,7 +125,19 @@ def main():
                 break
             wd = os.path.join(sd, "s%d" % si)
             argv, stdin = prepare(tool, spec, cfg, wd)
+            pre = None
+            if cfg.get("preexisting"):
+                # a larger valid image (the rich scenario) sits at the output path; the packer is told to overwrite it
+                pa, _ = prepare("gensquashfs", scenarios.spec_rich(), dict(comp="gzip", bs=4096), os.path.join(wd, "pre"))
+                pre = os.path.join(wd, "pre.sqfs")
+                rp = run_tool(pa + [pre])
+                if rp.rc != 0:
+                    raise RuntimeError("cannot build the pre-existing image: %s" % rp.err[-300:])
+                argv = argv + ["-f"]
             img0 = os.path.join(wd, "base.sqfs")
+            if pre:
+                shutil.copyfile(pre, img0)
+                shutil.copyfile(pre, os.path.join(wd, "base2.sqfs"))
             r0, log0 = envrun.run_env(argv + [img0], plan="", out_path=img0, stdin=stdin, timeout=120)
             if r0.rc != 0 or r0.crashed:
                 cr.violation("C14|baseline-fails|" + tool, "fault-free run of scenario %s fails: rc=%d %s" % (name, r0.rc, r0.err.decode("latin1")[-500:]))
@@ -120,7 +156,7 @@ def main():
                 continue
             full_tree = sqfsck.canon_tree(full)
             kinds = sorted(set(l[0] for l in log0 if l[6] and l[0] in ("write", "pwrite", "trunc")))
-            pts = pmap(run_point, [(si, k, argv, stdin, wd) for k in range(1, N + 2)])
+            pts = pmap(run_point, [(si, k, argv, stdin, wd, pre) for k in range(1, N + 2)])
             outcomes = {}
             for p in pts:
                 n_eval += 1
